@@ -217,8 +217,13 @@ theorem creatorInv_add (s : Creator) (items : List Item) (it : Item) (h : Creato
       rcases (hmem x).1 hx with hx | rfl
       · have := h.ids_lt x hx; omega
       · simp [hnext]
-    · rw [← (hperm.map (·.idx)).nodup_iff.symm]
-      sorry
+    · refine (hperm.map (·.idx)).nodup_iff.2 ?_
+      rw [List.map_append, List.nodup_append]
+      refine ⟨h.ids_nodup, by simp, ?_⟩
+      intro a ha b hb
+      simp at hb; subst hb
+      obtain ⟨x, hx, rfl⟩ := List.mem_map.1 ha
+      have := h.ids_lt x hx; omega
     · rw [hperm.length_eq, hnext]; simp [h.count]
     · intro x hx
       rcases (hmem x).1 hx with hx | rfl
@@ -229,6 +234,174 @@ theorem creatorInv_add (s : Creator) (items : List Item) (it : Item) (h : Creato
       rcases List.mem_append.1 hinfo with hi | hi
       · exact h.blob_lt info hi
       · simp at hi; subst hi; simp [Consts.maxBlobsPerCluster]
-  · sorry
+  · -- the blob is appended to the open cluster `c`
+    have hmem : ∀ x, x ∈ s.allClusters ↔ x ∈ l1 ∨ x = c ∨ x ∈ l2 := by
+      intro x; rw [hall]; simp
+    have hmem' : ∀ x, x ∈ (s.add it).1.allClusters ↔
+        x ∈ l1 ∨ x = { c with blobs := c.blobs ++ [it.data] } ∨ x ∈ l2 := by
+      intro x; rw [hall']; simp
+    have hcin : c ∈ s.allClusters := (hmem c).2 (Or.inr (Or.inl rfl))
+    have hcne := h.nonempty c hcin
+    have hclt := not_full_lt hnf hcne.2
+    refine ⟨?_, ?_, ?_, ?_, ?_, ?_, hrk, hck, ?_⟩
+    · simp [hinfos, hlen]
+    · intro i hi
+      by_cases hlt : i < items.length
+      · obtain ⟨d, hd, h1, h2, h3⟩ := h.located i hlt
+        rw [hinfos, getD_append_lt _ _ _ _ (by omega), getD_append_lt _ _ _ _ hlt]
+        rcases (hmem d).1 hd with hd | rfl | hd
+        · exact ⟨d, (hmem' d).2 (Or.inl hd), h1, h2, h3⟩
+        · refine ⟨_, (hmem' _).2 (Or.inr (Or.inl rfl)), h1, ?_, h3⟩
+          obtain ⟨hb, hv⟩ := List.getElem?_eq_some_iff.1 h2
+          show (d.blobs ++ [it.data])[_]? = _
+          rw [List.getElem?_append_left hb]
+          exact h2
+        · exact ⟨d, (hmem' d).2 (Or.inr (Or.inr hd)), h1, h2, h3⟩
+      · have hi' : i = items.length := by simp at hi; omega
+        subst hi'
+        refine ⟨_, (hmem' _).2 (Or.inr (Or.inl rfl)), ?_⟩
+        rw [hinfos, getD_concat_length _ _ _ _ hlen.symm, getD_concat_length _ _ _ _ rfl]
+        simp [hkind]
+    · intro x hx
+      rw [hnext]
+      rcases (hmem' x).1 hx with hx | rfl | hx
+      · exact h.ids_lt x ((hmem x).2 (Or.inl hx))
+      · exact h.ids_lt c hcin
+      · exact h.ids_lt x ((hmem x).2 (Or.inr (Or.inr hx)))
+    · have := h.ids_nodup
+      rw [hall] at this
+      rw [hall']
+      simpa using this
+    · rw [hall', hnext, ← h.count, hall]; simp
+    · intro x hx
+      rcases (hmem' x).1 hx with hx | rfl | hx
+      · exact h.nonempty x ((hmem x).2 (Or.inl hx))
+      · simp; omega
+      · exact h.nonempty x ((hmem x).2 (Or.inr (Or.inr hx)))
+    · intro info hinfo
+      rw [hinfos] at hinfo
+      rcases List.mem_append.1 hinfo with hi | hi
+      · exact h.blob_lt info hi
+      · simp at hi; subst hi; exact hclt
+
+theorem addAll_nil (s : Creator) : s.addAll [] = s := rfl
+
+theorem addAll_cons (s : Creator) (it : Item) (items : List Item) :
+    s.addAll (it :: items) = (s.add it).1.addAll items := rfl
+
+theorem creatorInv_addAll_gen (s : Creator) (pre items : List Item) (h : CreatorInv s pre) :
+    CreatorInv (s.addAll items) (pre ++ items) := by
+  induction items generalizing s pre with
+  | nil => simpa [addAll_nil] using h
+  | cons it items ih =>
+    rw [addAll_cons]
+    have := ih _ _ (creatorInv_add s pre it h)
+    simpa using this
+
+/-- 3. -/
+theorem creatorInv_addAll (items : List Item) : CreatorInv (Creator.init.addAll items) items := by
+  simpa using creatorInv_addAll_gen Creator.init [] items creatorInv_init
+
+theorem CreatorInv.finalize_eq {s : Creator} {items : List Item} (h : CreatorInv s items) :
+    s.finalize.1 = s.allClusters ∧ s.finalize.2 = s.infos := by
+  have hr : ∀ c, s.raw = some c → c.blobs.isEmpty = false := by
+    intro c hc
+    have := (h.nonempty c (mem_allClusters.2 (Or.inr (Or.inl hc)))).1
+    cases hb : c.blobs with
+    | nil => simp [hb] at this
+    | cons _ _ => rfl
+  have hcm : ∀ c, s.comp = some c → c.blobs.isEmpty = false := by
+    intro c hc
+    have := (h.nonempty c (mem_allClusters.2 (Or.inr (Or.inr hc)))).1
+    cases hb : c.blobs with
+    | nil => simp [hb] at this
+    | cons _ _ => rfl
+  unfold Creator.finalize Creator.allClusters
+  refine ⟨?_, rfl⟩
+  cases h1 : s.raw with
+  | none =>
+    cases h2 : s.comp with
+    | none => simp
+    | some c2 => simp [hcm _ h2]
+  | some c1 =>
+    cases h2 : s.comp with
+    | none => simp [hr _ h1]
+    | some c2 => simp [hr _ h1, hcm _ h2]
+
+/-- 4. finalize keeps everything -/
+theorem finalize_eq_all (items : List Item) :
+    ((Creator.init.addAll items).finalize).1 = (Creator.init.addAll items).allClusters ∧
+    ((Creator.init.addAll items).finalize).2 = (Creator.init.addAll items).infos :=
+  (creatorInv_addAll items).finalize_eq
+
+/-- 5. structural round trip -/
+theorem creator_roundtrip (items : List Item) :
+    let r := (Creator.init.addAll items).finalize
+    r.2.length = items.length ∧
+    ∀ i (_ : i < items.length), resolve r.1 (r.2.getD i (0,0)) =
+      some ((items.getD i ⟨[], false⟩).data, (items.getD i ⟨[], false⟩).comp) := by
+  intro r
+  have h := creatorInv_addAll items
+  have he := h.finalize_eq
+  show ((Creator.init.addAll items).finalize).2.length = _ ∧ ∀ i (_ : i < items.length),
+    resolve ((Creator.init.addAll items).finalize).1
+      (((Creator.init.addAll items).finalize).2.getD i (0,0)) = _
+  rw [he.1, he.2]
+  exact ⟨h.infos_len, h.resolves⟩
+
+/-- 6. cluster ids are exactly `0 .. n-1`, each once; clusters are non-empty and bounded -/
+theorem creator_ids (items : List Item) :
+    let r := (Creator.init.addAll items).finalize
+    (r.1.map (·.idx)).Nodup ∧ (∀ c ∈ r.1, c.idx < r.1.length) ∧
+    (∀ c ∈ r.1, 1 ≤ c.blobs.length ∧ c.blobs.length ≤ Consts.maxBlobsPerCluster) ∧
+    (∀ info ∈ r.2, info.2 < 4096) := by
+  intro r
+  have h := creatorInv_addAll items
+  have he := h.finalize_eq
+  show ((((Creator.init.addAll items).finalize).1.map (·.idx)).Nodup ∧
+    (∀ c ∈ ((Creator.init.addAll items).finalize).1,
+      c.idx < ((Creator.init.addAll items).finalize).1.length) ∧
+    (∀ c ∈ ((Creator.init.addAll items).finalize).1,
+      1 ≤ c.blobs.length ∧ c.blobs.length ≤ Consts.maxBlobsPerCluster) ∧
+    (∀ info ∈ ((Creator.init.addAll items).finalize).2, info.2 < 4096))
+  rw [he.1, he.2]
+  refine ⟨h.ids_nodup, ?_, h.nonempty, ?_⟩
+  · intro c hc; rw [h.count]; exact h.ids_lt c hc
+  · intro info hi
+    have := h.blob_lt info hi
+    simp only [Consts.maxBlobsPerCluster] at this
+    omega
+
+/-- 8. round trip for any arrival order of the clusters in the file -/
+theorem creator_roundtrip_any_arrival (items : List Item) (arrival : List Cluster)
+    (hp : ((Creator.init.addAll items).finalize).1.Perm arrival) :
+    ∀ i (_ : i < items.length),
+      resolve arrival (((Creator.init.addAll items).finalize).2.getD i (0,0)) =
+        some ((items.getD i ⟨[], false⟩).data, (items.getD i ⟨[], false⟩).comp) := by
+  intro i hi
+  rw [resolve_perm _ _ hp (creator_ids items).1]
+  exact (creator_roundtrip items).2 i hi
+
+/-- 9. -/
+theorem add_infos_length (s : Creator) (it : Item) :
+    (s.add it).1.infos.length = s.infos.length + 1 := by
+  unfold Creator.add
+  cases hcomp : it.comp
+  · cases hs : s.raw with
+    | none => simp
+    | some c => by_cases hf : c.isFull it.data.length = true <;> simp [hf]
+  · cases hs : s.comp with
+    | none => simp
+    | some c => by_cases hf : c.isFull it.data.length = true <;> simp [hf]
+
+theorem addAll_infos_length (s : Creator) (items : List Item) :
+    (s.addAll items).infos.length = s.infos.length + items.length := by
+  induction items generalizing s with
+  | nil => simp [addAll_nil]
+  | cons it items ih =>
+    rw [addAll_cons, ih, add_infos_length]
+    simp; omega
+
+-- NOT PROVED: (nothing; items 1-9 are all proved as stated)
 
 end Jubako
